@@ -1363,3 +1363,218 @@ Proof.
   - destruct Hn as [HS HP]. apply (run_inv C es0 eq_refl evs ph s HS HP).
   - split; [exact Hn|constructor].
 Qed.
+
+(* ================================================================== C12: only allowed pairings are created *)
+Definition NonNeg (tg : target) : Prop := forall t k q, tlookup tg t k = Some q -> (0 <= q)%Q.
+
+Lemma qpos_of_nonzero q : (0 <= q)%Q -> ~ (q == 0)%Q -> qpos q = true.
+Proof.
+  intros H0 Hn. unfold qpos. apply negb_true_iff. destruct (Qle_bool q (0 # 1)) eqn:E; [|reflexivity].
+  apply Qle_bool_iff in E. exfalso. apply Hn. apply Qle_antisym; assumption.
+Qed.
+
+Lemma allowed_mk nodes tg a b t m ka kb x :
+  exk nodes t a = Some ka -> exk nodes t b = Some kb -> tlookup tg t (ka ++ kb) = Some x -> qpos x = true ->
+  allowed nodes tg (mk_edge a b t m) = true.
+Proof.
+  intros Ha Hb Hx Hp. unfold allowed, mk_edge. cbn [ea eb et].
+  destruct (norm_cases a b) as [-> | ->]; cbn [fst snd]; rewrite Ha, Hb, Hx; cbn [qpos_opt]; rewrite Hp.
+  - reflexivity.
+  - apply orb_true_r.
+Qed.
+
+Lemma num_loop_allowed fixed nodes tg u0 v0 all1 : NonNeg tg -> forall a0 rem props top props' top',
+  num_loop fixed nodes tg u0 v0 all1 a0 rem props top = NumOk props' top' ->
+  (forall p, In p props -> allowed nodes tg p = true) -> forall p, In p props' -> allowed nodes tg p = true.
+Proof.
+  intros HN. induction a0 as [|e0 a0 IH]; intros rem props top props' top' H Hall; cbn in H.
+  - injection H as <- <-. exact Hall.
+  - destruct (pop_topo (et e0) rem) as [[e1 rem1]|] eqn:P; [|discriminate].
+    destruct (pop_topo_spec _ _ _ _ P) as [Et _].
+    destruct (exk nodes (et e0) u0) as [ku0|] eqn:X1; [|discriminate].
+    destruct (exk nodes (et e0) (other u0 e0)) as [ku1|] eqn:X2; [|discriminate].
+    destruct (exk nodes (et e0) v0) as [kv0|] eqn:X3; [|discriminate].
+    destruct (exk nodes (et e0) (other v0 e1)) as [kv1|] eqn:X4; [|discriminate].
+    match type of H with (if ?c then _ else _) = _ => destruct c; [discriminate|] end.
+    destruct (tlookup tg (et e0) (ku0 ++ kv1)) as [x|] eqn:L1; [|discriminate].
+    destruct (tlookup tg (et e0) (kv0 ++ ku1)) as [y|] eqn:L2; [|discriminate].
+    destruct (Qeq_bool (top * (x * y)) (0 # 1)) eqn:Z; [discriminate|].
+    assert (Hnz : ~ (top * (x * y) == 0)%Q) by (intros E; apply Qeq_bool_iff in E; congruence).
+    assert (Hx : qpos x = true).
+    { apply qpos_of_nonzero; [eapply HN; eauto|]. intros E. apply Hnz. rewrite E. ring. }
+    assert (Hy : qpos y = true).
+    { apply qpos_of_nonzero; [eapply HN; eauto|]. intros E. apply Hnz. rewrite E. ring. }
+    eapply IH; [exact H|]. intros p Hp. apply in_app_iff in Hp. destruct Hp as [Hp|Hp]; [apply Hall; exact Hp|].
+    destruct fixed; destruct Hp as [<-|[<-|[]]].
+    + rewrite Et. eapply allowed_mk; eauto.
+    + eapply allowed_mk; eauto.
+    + eapply allowed_mk; eauto.
+    + rewrite Et. eapply allowed_mk; eauto.
+Qed.
+
+Theorem swap_pre_allowed fixed nodes tg u0 v0 a0 a1 props top bot :
+  NonNeg tg -> swap_pre fixed nodes tg u0 v0 a0 a1 = PNeed props top bot ->
+  forall p, In p props -> allowed nodes tg p = true.
+Proof.
+  intros HN. unfold swap_pre.
+  destruct (num_loop fixed nodes tg u0 v0 a1 a0 (rev a1) [] (1 # 1)) as [|c|pr tp] eqn:E; try discriminate.
+  destruct (den_loop nodes tg u0 v0 a0 a1 (1 # 1)); try discriminate.
+  destruct (Qeq_bool bot0 (0 # 1)); [discriminate|]. intros [= -> -> ->].
+  eapply num_loop_allowed; [exact HN|exact E|intros p []].
+Qed.
+
+(* nothing but the proposals is created by a swap *)
+Lemma created_swap N es u0 v0 m0 m1 fixed prs nodes tg :
+  WF N es -> (forall p, In p (swap_props u0 v0 fixed prs) -> allowed nodes tg p = true) ->
+  step_allowed nodes tg es (swap_es' es u0 v0 m0 m1 fixed prs) = true.
+Proof.
+  intros HW Hall. unfold step_allowed, created. apply forallb_forall. intros e He.
+  apply filter_In in He. destruct He as [He Hn]. rewrite negb_true_iff in Hn.
+  unfold swap_es' in He. apply in_app_iff in He. destruct He as [He|He]; [|apply Hall; exact He].
+  exfalso. apply filter_In in He. destruct He as [He _].
+  assert (X : has_edge es (ea e) (eb e) = true).
+  { apply has_edge_iff. exists e. split; [exact He|]. destruct HW as [Hr _]. apply Hr in He.
+    unfold key, norm. destruct (Z.leb_spec (ea e) (eb e)); [reflexivity|lia]. }
+  congruence.
+Qed.
+
+Lemma step_allowed_refl nodes tg N es : WF N es -> step_allowed nodes tg es es = true.
+Proof.
+  intros [Hr _]. unfold step_allowed, created. apply forallb_forall. intros e He. apply filter_In in He.
+  destruct He as [He Hn]. rewrite negb_true_iff in Hn. exfalso.
+  assert (X : has_edge es (ea e) (eb e) = true).
+  { apply has_edge_iff. exists e. split; [exact He|]. apply Hr in He.
+    unfold key, norm. destruct (Z.leb_spec (ea e) (eb e)); [reflexivity|lia]. }
+  congruence.
+Qed.
+
+(* refinement of the phase invariant: the pending proposals are allowed pairings *)
+Definition PhAllowed (C : cfg) (ph : phase) : Prop :=
+  match ph with
+  | PhRandom _ _ _ _ props _ _ => forall p, In p props -> allowed (c_nodes C) (c_target C) p = true
+  | _ => True
+  end.
+
+Definition next_state (n : next) : st * bool :=
+  match n with Go _ s a => (s, a) | Halt _ s a => (s, a) end.
+Definition next_phase_allowed (C : cfg) (n : next) : Prop :=
+  match n with Go ph _ _ => PhAllowed C ph | Halt _ _ _ => True end.
+
+Lemma enter_outer_state C s acc : next_state (enter_outer C s acc) = (s, acc) /\ next_phase_allowed C (enter_outer C s acc).
+Proof.
+  unfold enter_outer. destruct (Nat.leb (s_cc s) (c_climit C)); [|split; [reflexivity|exact Logic.I]].
+  destruct (edges (s_ds s)); split; try reflexivity; exact Logic.I.
+Qed.
+
+Lemma enter_inner_state C s e0 c0 sc :
+  next_state (enter_inner C s e0 c0 sc) = (s, false) /\ next_phase_allowed C (enter_inner C s e0 c0 sc).
+Proof.
+  unfold enter_inner. destruct (Nat.leb sc (c_slimit C)); [split; [reflexivity|exact Logic.I]|apply enter_outer_state].
+Qed.
+
+Lemma step_created C es0 ph s e :
+  NonNeg (c_target C) -> c_nE C = length es0 -> StInv C es0 s -> PhInv C s ph -> PhAllowed C ph ->
+  let '(s', acc) := next_state (step C ph s e) in
+  next_phase_allowed C (step C ph s e) /\
+  (if acc then step_allowed (c_nodes C) (c_target C) (s_es s) (s_es s') = true else s_es s' = s_es s).
+Proof.
+  intros HN HnE HS HP HA. pose proof HS as [HH HM]. pose proof HH as [_ [HW [Hlen _]]].
+  destruct ph as [|e0|e0 c0 sc|e0 c0 sc e1|u0 v0 c0 c1 props top bot]; destruct e as [i|c|r]; cbn [step];
+    try (cbn; split; [exact Logic.I|reflexivity]).
+  - destruct (draw_edge C s i); cbn; split; try exact Logic.I; reflexivity.
+  - destruct (permb c _); [|cbn; split; [exact Logic.I|reflexivity]].
+    destruct (enter_inner_state C s e0 c 0) as [-> X]. split; [exact X|reflexivity].
+  - destruct (draw_edge C s i) as [e1|]; [|cbn; split; [exact Logic.I|reflexivity]].
+    destruct (Nat.eqb (et e1) (et e0)); cbn; split; try exact Logic.I; reflexivity.
+  - destruct (permb c _); [|cbn; split; [exact Logic.I|reflexivity]].
+    destruct (attrs (s_es s) (ea e0) c0) as [a0|]; [|cbn; split; [exact Logic.I|reflexivity]].
+    destruct (attrs (s_es s) (ea e1) c) as [a1|]; [|cbn; split; [exact Logic.I|reflexivity]].
+    destruct (suitable (s_es s) (ea e0) (ea e1) a0 a1).
+    + destruct (Nat.leb (c_slimit C) sc).
+      { destruct (enter_outer_state C s false) as [-> X]. split; [exact X|reflexivity]. }
+      destruct (swap_pre (c_fixed C) (c_nodes C) (c_target C) (ea e0) (ea e1) a0 a1) as [|cc|props top bot] eqn:Sp.
+      * destruct (enter_outer_state C s false) as [-> X]. split; [exact X|reflexivity].
+      * cbn. split; [exact Logic.I|reflexivity].
+      * cbn. split; [|reflexivity]. eapply swap_pre_allowed; eauto.
+    + destruct (enter_inner_state C s e0 c0 (S sc)) as [-> X]. split; [exact X|reflexivity].
+  - destruct HP as [m0 [m1 [a0 [a1 [prs [G0 [G1 [Hc0 [Hc1 [SF [Hf [Hs [Ht Hprops]]]]]]]]]]]]].
+    destruct (accepts top bot r).
+    2:{ destruct (enter_outer_state C s false) as [-> X]. split; [exact X|reflexivity]. }
+    destruct (apply_swap_ok (c_M C) (s_es s) u0 v0 m0 m1 a0 a1 (c_fixed C) prs (s_ds s) HW G0 G1 SF Hf Hs Ht HM)
+      as [d' [Hap HM']].
+    rewrite HnE, <- Hlen, Hc0, Hc1, Hprops, Hap.
+    destruct (enter_outer_state C (mkS (swap_es' (s_es s) u0 v0 m0 m1 (c_fixed C) prs) d' (S (s_cc s))) true) as [-> X].
+    split; [exact X|]. cbn [s_es]. eapply created_swap; eauto. cbn in HA. rewrite <- Hprops. exact HA.
+Qed.
+
+(* along every run, consecutive accepted states only differ by allowed pairings *)
+Theorem run_allowed C es0 : NonNeg (c_target C) -> c_nE C = length es0 -> forall evs ph s,
+  StInv C es0 s -> PhInv C s ph -> PhAllowed C ph ->
+  let '(r, sf, tr) := run C evs ph s in
+  chain_allowed (c_nodes C) (c_target C) (s_es s) (map s_es tr) = true.
+Proof.
+  intros HN HnE. induction evs as [|e evs IH]; intros ph s HS HP HA; cbn [run].
+  - reflexivity.
+  - pose proof (step_inv C es0 ph s e HnE HS HP) as Hn.
+    pose proof (step_created C es0 ph s e HN HnE HS HP HA) as Hc.
+    destruct (step C ph s e) as [ph' s' acc|r s' acc]; cbn in Hn, Hc.
+    + destruct Hn as [HS' HP']. destruct Hc as [HA' Hc]. specialize (IH ph' s' HS' HP' HA').
+      destruct (run C evs ph' s') as [[r sf] tr]. destruct acc.
+      * cbn [map chain_allowed]. rewrite Hc, IH. reflexivity.
+      * rewrite Hc in IH. exact IH.
+    + destruct Hc as [_ Hc]. destruct acc; cbn [map chain_allowed].
+      * rewrite Hc. reflexivity.
+      * reflexivity.
+Qed.
+
+Theorem rewire_allowed fixed nodes tg es0 sl cl evs :
+  WF (Z.of_nat (length nodes)) es0 -> NonNeg tg ->
+  let C := mk_cfg fixed nodes tg es0 sl cl in
+  let '(r, sf, tr) := rewire C es0 evs in chain_allowed nodes tg es0 (map s_es tr) = true.
+Proof.
+  intros HW HN C. unfold rewire.
+  assert (HS0 : StInv C es0 (mkS es0 (init_ds (c_M C) es0) 0)).
+  { split; [apply Hard_refl; exact HW|apply init_ds_mirror]. }
+  pose proof (enter_outer_inv C es0 _ false HS0) as Hn.
+  destruct (enter_outer_state C (mkS es0 (init_ds (c_M C) es0) 0) false) as [Hst Hph].
+  destruct (enter_outer C _ false) as [ph s acc|r s acc]; cbn in Hn, Hst, Hph.
+  - destruct Hn as [HS HP]. injection Hst as -> ->.
+    apply (run_allowed C es0 HN eq_refl evs ph _ HS HP Hph).
+  - reflexivity.
+Qed.
+
+(* Prop-level reading of the C12 checker *)
+Definition AllowedP (nodes : list (list Z)) (tg : target) (e : edge) : Prop :=
+  exists ka kb x, exk nodes (et e) (ea e) = Some ka /\ exk nodes (et e) (eb e) = Some kb /\
+    (tlookup tg (et e) (ka ++ kb) = Some x \/ tlookup tg (et e) (kb ++ ka) = Some x) /\ (0 < x)%Q.
+
+Lemma qpos_spec q : qpos q = true <-> (0 < q)%Q.
+Proof.
+  unfold qpos. rewrite negb_true_iff. split.
+  - intros H. apply Qnot_le_lt. intros X. apply Qle_bool_iff in X. congruence.
+  - intros H. destruct (Qle_bool q (0 # 1)) eqn:E; [|reflexivity]. apply Qle_bool_iff in E.
+    exfalso. apply (Qlt_not_le _ _ H). exact E.
+Qed.
+
+Lemma allowed_iff nodes tg e : allowed nodes tg e = true <-> AllowedP nodes tg e.
+Proof.
+  unfold allowed, AllowedP. split.
+  - destruct (exk nodes (et e) (ea e)) as [ka|]; [|discriminate].
+    destruct (exk nodes (et e) (eb e)) as [kb|]; [|discriminate].
+    rewrite orb_true_iff. intros [H|H].
+    + destruct (tlookup tg (et e) (ka ++ kb)) as [x|] eqn:L; [|discriminate]. cbn in H. apply qpos_spec in H.
+      exists ka, kb, x. auto.
+    + destruct (tlookup tg (et e) (kb ++ ka)) as [x|] eqn:L; [|discriminate]. cbn in H. apply qpos_spec in H.
+      exists ka, kb, x. auto.
+  - intros [ka [kb [x [-> [-> [[L|L] Hx]]]]]]; rewrite L; cbn; apply qpos_spec in Hx; rewrite Hx; [reflexivity|apply orb_true_r].
+Qed.
+
+Theorem step_allowed_iff nodes tg es es' :
+  step_allowed nodes tg es es' = true <->
+  forall e, In e es' -> has_edge es (ea e) (eb e) = false -> AllowedP nodes tg e.
+Proof.
+  unfold step_allowed, created. rewrite forallb_forall. split.
+  - intros H e He Hn. apply allowed_iff. apply H. apply filter_In. rewrite Hn. auto.
+  - intros H e He. apply filter_In in He. destruct He as [He Hn]. apply allowed_iff. apply H; [exact He|].
+    apply negb_true_iff. exact Hn.
+Qed.
